@@ -5,6 +5,8 @@ import Pyxv.Model.Controls
 import Pyxv.Model.Choices
 import Pyxv.Model.Settings
 import Pyxv.Model.Lexer
+import Pyxv.Model.RefsText
+import Pyxv.Model.Channel
 import Pyxv.Model.Assemble
 import Pyxv.Model.Xml
 /-!
@@ -71,21 +73,25 @@ deriving Repr, Inhabited, DecidableEq
 
 def canonKey (toks : List Str) : Str := joinWith (l!"::") toks
 
-/-- one raw row → canonical cells (`bind::relevant`, `control::appearance`, …), cleaned -/
-def canonRow (key : List (Str × List Str)) : Cells → Except String Cells
+/-- one raw row → canonical cells (`bind::relevant`, `control::appearance`, …), cleaned; every cell passes
+    `validate_pyxform_reference_syntax` (`Lexer.refSyntaxOk`) or the form is rejected -/
+def canonRow (key : List (Str × List Str)) : Cells → Except Err Cells
   | [] => .ok []
   | (h, v) :: rest =>
     let v' := Binds.cleanCell v
-    if v'.isEmpty then .error "whitespace-only cell" else
-    if !Binds.refsSimple none v' then .error "reference shape" else
+    if v'.isEmpty then .error (.unsupported "whitespace-only cell") else
+    match Lexer.refSyntaxOk v' with
+    | none => .error (.unsupported "lexer rule table is not the pinned one")
+    | some false => .error (.rejected "reference syntax")
+    | some true =>
     match lookup h key with
-    | none => .error "cell under a column that is not in the header row"
+    | none => .error (.unsupported "cell under a column that is not in the header row")
     | some toks =>
       match canonRow key rest with
       | .ok r => .ok ((canonKey toks, v') :: r)
       | .error e => .error e
 
-def canonRows (key : List (Str × List Str)) : List Cells → Except String (List Cells)
+def canonRows (key : List (Str × List Str)) : List Cells → Except Err (List Cells)
   | [] => .ok []
   | r :: rs =>
     match canonRow key r with
@@ -99,11 +105,17 @@ def canonRows (key : List (Str × List Str)) : List Cells → Except String (Lis
 def fragmentKeys : List Str :=
   [l!"type", l!"name", l!"label", l!"hint", l!"default", l!"bind::relevant", l!"bind::required",
    l!"bind::constraint", l!"bind::calculate", l!"bind::readonly", l!"bind::jr:constraintMsg",
-   l!"bind::jr:requiredMsg", l!"control::appearance"]
+   l!"bind::jr:requiredMsg", l!"control::appearance", l!"control::jr:count"]
 
 /-- cells that may contain `${name}` (they reach a bind through `insert_xpaths`) -/
 def logicKeys : List Str :=
   [l!"bind::relevant", l!"bind::required", l!"bind::constraint", l!"bind::calculate", l!"bind::readonly"]
+
+/-- cells whose `${name}` become `<output value=…/>` (`insert_output_values`) -/
+def textKeys : List Str := [l!"label", l!"hint"]
+
+/-- cells that are expressions of their own (`insert_xpaths` on a dynamic default / the repeat count) -/
+def exprKeys : List Str := [l!"default", l!"control::jr:count"]
 
 def plainTypes : List Str := [l!"text", l!"integer", l!"decimal", l!"date", l!"note", l!"calculate"]
 
@@ -115,16 +127,17 @@ def keysNodup : Cells → Bool
 def rowOutside (r : Cells) : Option String :=
   if !(r.all fun kv => fragmentKeys.contains kv.1) then some "column outside the fragment"
   else if !keysNodup r then some "duplicate column"
-  else if r.any (fun kv => !logicKeys.contains kv.1 && isInfix (l!"${") kv.2) then some "reference outside a logic cell"
+  else if r.any (fun kv => !logicKeys.contains kv.1 && !textKeys.contains kv.1 && !exprKeys.contains kv.1 &&
+      isInfix (l!"${") kv.2) then
+    some "reference outside a logic / label / hint cell"
   else
   match get r "type" with
   | none => none
   | some t =>
     if plainTypes.contains t then none
     else match matchSelect t with
-    | some (sel, _, other) =>
-      if other then some "or_other"
-      else if sel = l!"select one" || sel = l!"select all that apply" then none
+    | some (sel, _, _) =>
+      if sel = l!"select one" || sel = l!"select all that apply" then none
       else some "select type outside the fragment"
     | none =>
       if (matchControl "begin" true t).isSome then
@@ -142,6 +155,10 @@ structure Pay where
   attrs : Controls.Dict := []
   /-- source of the element's bind: type-table section and the row's `bind` dict (`Binds.Q`) -/
   bq : Binds.Q := { name := [], tt := none, bind := none }
+  /-- cells and bind source of the element the row *generates* beside its own
+      (`<repeat>_count` before a repeat, `<select>_other` after an `or_other` select) -/
+  hcells : Cells := []
+  hbq : Binds.Q := { name := [], tt := none, bind := none }
 deriving Repr, Inhabited
 
 inductive DItem where
@@ -163,18 +180,21 @@ def dpush (t : DItem) : DSt → DSt
   | (root, []) => (root ++ [t], [])
   | (root, f :: fs) => (root, { f with kids := f.kids ++ [t] } :: fs)
 
-def dpushOpt (t : Option QData) (st : DSt) : DSt :=
+def dpushOpt (t : Option QData) (hp : Pay) (st : DSt) : DSt :=
   match t with
-  | some d => dpush (.q d {}) st
+  | some d => dpush (.q d hp) st
   | none => st
+
+/-- the decoration of the generated element of a row -/
+def helperPay (p : Pay) : Pay := { cells := p.hcells, bq := p.hbq }
 
 /-- `Form.step` on decorated items -/
 def dstep (st : DSt) (n : Nat) (p : Pay) : RowK → Except Form.Err DSt
   | .skip => .ok st
   | .bad e => .error (.row n e)
-  | .q d other => .ok (dpushOpt other (dpush (.q d p) st))
+  | .q d other => .ok (dpushOpt other (helperPay p) (dpush (.q d p) st))
   | .begin_ ct name bind helper =>
-    let (root, fs) := dpushOpt helper st
+    let (root, fs) := dpushOpt helper (helperPay p) st
     .ok (root, ⟨ct, name, bind, p, []⟩ :: fs)
   | .end_ ct =>
     match st with
@@ -238,29 +258,41 @@ def ownAttrs (k : RowK) (cs : List Controls.Ctl) : Controls.Dict :=
   | .q d _ => if d.control then (cs.head?.map (·.2)).getD [] else []
   | _ => []
 
-/-- a static default (`default_is_dynamic` is false); `none` = dynamic or lexer table not the pinned one -/
-def defaultStatic (r : Cells) : Bool :=
+def typeName (r : Cells) : Str :=
+  match get r "type" with
+  | some t => (match matchSelect t with | some (sel, _, _) => sel | none => t)
+  | none => []
+
+/-- `default_is_dynamic(self.default, self.type)`; `none` = no default cell / lexer table not the pinned one -/
+def defaultDyn (r : Cells) : Option Bool :=
   match get r "default" with
-  | none => true
-  | some dv =>
-    let ty := match get r "type" with
-      | some t => (match matchSelect t with | some (sel, _, _) => sel | none => t)
-      | none => []
-    Lexer.defaultIsDynamic dv ty == some false
+  | none => none
+  | some dv => Lexer.defaultIsDynamic dv (typeName r)
+
+def isDynDefault (r : Cells) : Bool := defaultDyn r == some true
+def isStaticDefault (r : Cells) : Bool := defaultDyn r == some false
+
+/-- bind source and cells of the generated element of a row (xls2json.py 893-912, 1082-1100) -/
+def helperOf (k : RowK) (r : Cells) : Cells × Binds.Q :=
+  match k with
+  | .begin_ _ name _ (some h) =>
+    ([], { name := h.name, tt := Binds.typeBind (l!"calculate"),
+           bind := some [(l!"readonly", .s (l!"true()")), (l!"calculate", .s ((get r "control::jr:count").getD []))] })
+  | .q d (some o) =>
+    ([(l!"label", l!"Specify other.")],
+     { name := o.name, tt := Binds.typeBind (l!"text"),
+       bind := some [(l!"relevant", .s (l!"selected(../" ++ d.name ++ l!", 'other')"))] })
+  | _ => ([], { name := [], tt := none, bind := none })
 
 /-- one canonical row (number `n`) ↦ its classification and decoration -/
 def decorate (lists : List Str) (n : Nat) (r : Cells) : Except Err (RowK × Pay) :=
   match rowOutside r with
   | some w => .error (.unsupported w)
   | none =>
-  if !defaultStatic r then .error (.unsupported "dynamic default") else
+  if (get r "default").isSome && (defaultDyn r).isNone then .error (.unsupported "lexer rule table is not the pinned one") else
   match classify lists n r with
   | .unsupported w => .error (.unsupported w)
   | .row k =>
-    match k with
-    | .q _ (some _) => .error (.unsupported "or_other companion")
-    | .begin_ _ _ _ (some _) => .error (.unsupported "repeat count helper")
-    | _ =>
     match Controls.rowControls lists n r with
     | .error (.unsup w) => .error (.unsupported w)
     | .error (.err w) =>
@@ -268,7 +300,8 @@ def decorate (lists : List Str) (n : Nat) (r : Cells) : Except Err (RowK × Pay)
       (match k with
        | .bad _ => .ok (k, {})
        | _ => .error (.rejected w))
-    | .ok cs => .ok (k, { cells := r, attrs := ownAttrs k cs, bq := rowQ (kName k) r })
+    | .ok cs => .ok (k, { cells := r, attrs := ownAttrs k cs, bq := rowQ (kName k) r,
+                          hcells := (helperOf k r).1, hbq := (helperOf k r).2 })
 
 def decorateAll (lists : List Str) : Nat → List Cells → Except Err (List ((Nat × RowK) × Pay))
   | _, [] => .ok []
@@ -308,7 +341,10 @@ def topNames : List DItem → List Str
 mutual
 /-- (path, default text) of every question with a `default` cell -/
 def defaultsOf (pre : List Str) : DItem → List (List Str × Str)
-  | .q d p => (match get p.cells "default" with | some v => [(pre ++ [d.name], v)] | none => [])
+  | .q d p =>
+    (match get p.cells "default" with
+     | some v => if isStaticDefault p.cells then [(pre ++ [d.name], v)] else []
+     | none => [])
   | .sec _ n _ _ ks => defaultsOfL (pre ++ [n]) ks
 def defaultsOfL (pre : List Str) : List DItem → List (List Str × Str)
   | [] => []
@@ -340,51 +376,203 @@ def ntKids : NT → List NT
 
 /-! ## 6. binds -/
 
-/-- `xml_bindings` of the element at `path` -/
-def bindAttrs (root : Str) (tops : List Str) (path : List Str) (q : Binds.Q) : Option (List (Str × Str)) :=
-  match Binds.xmlBind root tops { path, q } with
-  | some (some b) =>
-    -- `setAttribute` evicts an attribute of the same local name: `x:nodeset` would remove `nodeset` (outside the fragment)
-    if b.attrs.all (fun kv => Asm.attrLocal kv.1 != l!"nodeset") then some b.attrs else none
-  | _ => none
+def kindOf : Ctl → Refs.Kind
+  | .rep => .rep
+  | _ => .group
 
-def bindNode (root : Str) (tops : List Str) (path : List Str) (q : Binds.Q) : Node :=
-  Asm.pyNode (l!"bind") ((l!"nodeset", xpathStr path) :: (bindAttrs root tops path q).getD []) []
+mutual
+/-- the element tree `Pyxv.Refs` reasons about (`iter_descendants` order, kinds) -/
+def toEl : DItem → Refs.El
+  | .q d _ => .mk .q d.name []
+  | .sec ct n _ _ ks => .mk (kindOf ct) n (toElL ks)
+def toElL : List DItem → List Refs.El
+  | [] => []
+  | k :: ks => toEl k :: toElL ks
+end
+
+/-- chains of all elements of the survey, root first (`_setup_xpath_dictionary`, `is_parent_a_repeat`) -/
+def elsOf (root : Str) (dall : List DItem) : List Refs.Chain := (Refs.El.mk .group root (toElL dall)).chains []
+
+/-- texts whose references need the lexer-level flags of `Refs.Flags` or the last-saved instance -/
+def refUnsupported (s : Str) : Bool :=
+  isInfix (l!"indexed-repeat(") s || isInfix (l!"instance(") s || isInfix (l!"${last-saved#") s
+
+/-- the element's bind dict (`Question.__init__` merge); `none`: no dict, or a `nodeset` entry -/
+def bindDict (q : Binds.Q) : Option Binds.BindDict :=
+  match Binds.elemBind q with
+  | some b => if (lookup (l!"nodeset") b).isSome then none else some b
+  | none => none
+
+/-- `xml_bindings`: value conversions, then `insert_xpaths(v, context=self)` through `Refs.refFor` -/
+def attrsOfR (els : List Refs.Chain) (ctx : Refs.Chain) (path : Str) : Binds.BindDict → Option (List (Str × Str))
+  | [] => some []
+  | (k, v) :: rest =>
+    match Binds.convVal path k v with
+    | none => none
+    | some s =>
+      match Refs.insertXpaths els (some ctx) {} s, attrsOfR els ctx path rest with
+      | some s', some r => some ((k, s') :: r)
+      | _, _ => none
+
+/-- the bind is inside the fragment (whether its references resolve is `bindAttrs`) -/
+def bindSupported (ctx : Refs.Chain) (q : Binds.Q) : Bool :=
+  match bindDict q with
+  | none => false
+  | some b =>
+    b.all fun kv =>
+      Asm.attrLocal kv.1 != l!"nodeset" &&
+      (match Binds.convVal ctx.xpath kv.1 kv.2 with | some s => !refUnsupported s | none => false)
+
+/-- `xml_bindings` of the element with chain `ctx` -/
+def bindAttrs (els : List Refs.Chain) (ctx : Refs.Chain) (q : Binds.Q) : Option (List (Str × Str)) :=
+  match (bindDict q).bind (attrsOfR els ctx ctx.xpath) with
+  | some a =>
+    -- `setAttribute` evicts an attribute of the same local name: `x:nodeset` would remove `nodeset` (outside the fragment)
+    if a.all (fun kv => Asm.attrLocal kv.1 != l!"nodeset") then some a else none
+  | none => none
+
+def evFirstLoad : Str := l!"odk-instance-first-load"
+def evNewRepeat : Str := l!"odk-instance-first-load odk-new-repeat"
+
+/-- `get_setvalue_node_for_dynamic_default`: `node("setvalue", ref=…, value=insert_xpaths(default, self), event=…)` -/
+def setvalueNode (els : List Refs.Chain) (ctx : Refs.Chain) (dv : Str) (inRepeat : Bool) : Node :=
+  Asm.pyNode (l!"setvalue")
+    [(l!"ref", xpathStr ctx.path), (l!"value", (Refs.insertXpaths els (some ctx) {} dv).getD dv),
+     (l!"event", if inRepeat then evNewRepeat else evFirstLoad)] []
+
+/-- the setvalue of an element's dynamic default, if it has one -/
+def dynSetOf (els : List Refs.Chain) (ctx : Refs.Chain) (r : Cells) (inRepeat : Bool) : List Node :=
+  match get r "default" with
+  | some dv => if isDynDefault r then [setvalueNode els ctx dv inRepeat] else []
+  | none => []
+
+/-- an expression cell that goes through `insert_xpaths`: outside the fragment, or a reference that does not resolve -/
+def exprErr (els : List Refs.Chain) (ctx : Refs.Chain) (v : Str) : Option Err :=
+  if refUnsupported v then some (.unsupported "expression outside the fragment")
+  else if (Refs.insertXpaths els (some ctx) {} v).isNone then some (.rejected "reference")
+  else none
+
+def inRep (pc : Refs.Chain) : Bool := pc.any fun s => s.2 == Refs.Kind.rep
+
+def bindNode (els : List Refs.Chain) (ctx : Refs.Chain) (q : Binds.Q) : Node :=
+  Asm.pyNode (l!"bind") ((l!"nodeset", xpathStr ctx.path) :: (bindAttrs els ctx q).getD []) []
 
 mutual
 /-- `xml_descendent_bindings`: one `<bind>` per element that has a bind dict, document order -/
-def bindNodes (root : Str) (tops : List Str) (pre : List Str) : DItem → List Node
-  | .q d p => if d.bind then [bindNode root tops (pre ++ [d.name]) p.bq] else []
-  | .sec _ n b p ks =>
-    (if b then [bindNode root tops (pre ++ [n]) p.bq] else []) ++ bindNodesL root tops (pre ++ [n]) ks
-def bindNodesL (root : Str) (tops : List Str) (pre : List Str) : List DItem → List Node
+def bindNodes (els : List Refs.Chain) (pc : Refs.Chain) : DItem → List Node
+  | .q d p =>
+    (if d.bind then [bindNode els (pc ++ [(d.name, .q)]) p.bq] else []) ++
+    -- dynamic defaults of elements without a repeat ancestor go into the model, after the element's bind
+    (if inRep pc then [] else dynSetOf els (pc ++ [(d.name, .q)]) p.cells false)
+  | .sec ct n b p ks =>
+    (if b then [bindNode els (pc ++ [(n, kindOf ct)]) p.bq] else []) ++ bindNodesL els (pc ++ [(n, kindOf ct)]) ks
+def bindNodesL (els : List Refs.Chain) (pc : Refs.Chain) : List DItem → List Node
   | [] => []
-  | k :: ks => bindNodes root tops pre k ++ bindNodesL root tops pre ks
+  | k :: ks => bindNodes els pc k ++ bindNodesL els pc ks
 end
 
 mutual
-/-- every bind the walk emits has attributes inside the `Binds` fragment -/
-def bindsOk (root : Str) (tops : List Str) (pre : List Str) : DItem → Bool
-  | .q d p => !d.bind || (bindAttrs root tops (pre ++ [d.name]) p.bq).isSome
-  | .sec _ n b p ks =>
-    (!b || (bindAttrs root tops (pre ++ [n]) p.bq).isSome) && bindsOkL root tops (pre ++ [n]) ks
-def bindsOkL (root : Str) (tops : List Str) (pre : List Str) : List DItem → Bool
+/-- every bind the walk emits is inside the fragment -/
+def bindsSup (pc : Refs.Chain) : DItem → Bool
+  | .q d p => !d.bind || bindSupported (pc ++ [(d.name, .q)]) p.bq
+  | .sec ct n b p ks =>
+    (!b || bindSupported (pc ++ [(n, kindOf ct)]) p.bq) && bindsSupL (pc ++ [(n, kindOf ct)]) ks
+def bindsSupL (pc : Refs.Chain) : List DItem → Bool
   | [] => true
-  | k :: ks => bindsOk root tops pre k && bindsOkL root tops pre ks
+  | k :: ks => bindsSup pc k && bindsSupL pc ks
+end
+
+mutual
+/-- every reference of every bind resolves (otherwise pyxform raises) -/
+def bindsOk (els : List Refs.Chain) (pc : Refs.Chain) : DItem → Bool
+  | .q d p => !d.bind || (bindAttrs els (pc ++ [(d.name, .q)]) p.bq).isSome
+  | .sec ct n b p ks =>
+    (!b || (bindAttrs els (pc ++ [(n, kindOf ct)]) p.bq).isSome) && bindsOkL els (pc ++ [(n, kindOf ct)]) ks
+def bindsOkL (els : List Refs.Chain) (pc : Refs.Chain) : List DItem → Bool
+  | [] => true
+  | k :: ks => bindsOk els pc k && bindsOkL els pc ks
 end
 
 /-! ## 7. body -/
 
-/-- `xml_label`: `<label>text</label>`, or `<label/>` without a label cell -/
-def labelNode (r : Cells) : Node :=
-  Asm.pyNode (l!"label") [] (match get r "label" with | some s => [.text false s] | none => [])
+/-- the chain of the element at `path` (sibling names are unique, so a path names one element) -/
+def ctxOf (els : List Refs.Chain) (path : List Str) : Refs.Chain :=
+  (els.find? fun c => c.path == path).getD []
 
-def hintNode (r : Cells) : Node :=
-  Asm.pyNode (l!"hint") [] (match get r "hint" with | some s => [.text false s] | none => [])
+/-- name ↦ path text `_var_repl_function` emits for it from the context `ctx` (absolute or relative; the blanks
+    around it are added by `Chan.varRepl`); unknown / ambiguous names are absent -/
+def refsTable (els : List Refs.Chain) (ctx : Refs.Chain) : List (Str × Str) :=
+  els.filterMap fun c =>
+    match c.getLast? with
+    | some (n, _) =>
+      (match Refs.refFor els (some ctx) n {} with
+       | .ok _ e => some (n, e.render)
+       | _ => none)
+    | none => none
+
+mutual
+/-- every attribute list of the tree is a map (what `minidom` guarantees for a parsed fragment) -/
+def domOk : Node → Bool
+  | .text _ _ => true
+  | .elem _ a ks => attrKeysNodup a && domOkL ks
+def domOkL : List Node → Bool
+  | [] => true
+  | k :: ks => domOk k && domOkL ks
+end
+
+/-- text, or a childless `<output …/>` element -/
+def outputKid : Node → Bool
+  | .text _ _ => true
+  | .elem t _ [] => t == l!"output"
+  | .elem _ _ (_ :: _) => false
+
+/-- children of a label / hint: text and childless `<output …/>` elements -/
+def outputOnly : Node → Bool
+  | .elem _ _ ks => ks.all outputKid
+  | .text _ _ => false
+
+/-- label / hint text through the mixed channel (`node(tag, *insert_output_values(text, self), toParseString=…)`) -/
+def textOutcome (els : List Refs.Chain) (path : List Str) (tag s : Str) : Chan.Outcome Node :=
+  if isInfix (l!"instance(") s || isInfix (l!"${last-saved#") s then .unsupported "instance() / last-saved in a label" else
+  match Chan.mixedChannel (refsTable els (ctxOf els path)) tag s with
+  | .ok n => if domOk n && outputOnly n then .ok n else .unsupported "markup in a label"
+  | o => o
+
+def emptyNode (tag : Str) : Node := Asm.pyNode tag [] []
+
+def textNode (els : List Refs.Chain) (path : List Str) (tag : Str) (cell : Option Str) : Node :=
+  match cell with
+  | none => emptyNode tag
+  | some s =>
+    match textOutcome els path tag s with
+    | .ok n => n
+    | _ => emptyNode tag
+
+/-- what goes wrong with a rendered text cell, if anything -/
+def textErr (els : List Refs.Chain) (path : List Str) (tag : Str) (cell : Option Str) : Option Err :=
+  match cell with
+  | none => none
+  | some s =>
+    match textOutcome els path tag s with
+    | .ok _ => none
+    | .pyxformError => some (.rejected "reference in a label")
+    | .reparseError => some (.unsupported "label does not reparse (internal error)")
+    | .unsupported w => some (.unsupported w)
+
+/-- `xml_label`: `<label>text</label>` (with `<output>` for references), or `<label/>` without a label cell -/
+def labelNode (els : List Refs.Chain) (path : List Str) (r : Cells) : Node := textNode els path (l!"label") (get r "label")
+
+def hintNode (els : List Refs.Chain) (path : List Str) (r : Cells) : Node := textNode els path (l!"hint") (get r "hint")
 
 /-- `xml_label_and_hint` -/
-def labelAndHint (r : Cells) : List Node :=
-  (if has r "label" || has r "hint" then [labelNode r] else []) ++ (if has r "hint" then [hintNode r] else [])
+def labelAndHint (els : List Refs.Chain) (path : List Str) (r : Cells) : List Node :=
+  (if has r "label" || has r "hint" then [labelNode els path r] else []) ++
+  (if has r "hint" then [hintNode els path r] else [])
+
+def orErr (a b : Option Err) : Option Err :=
+  match a with
+  | some e => some e
+  | none => b
 
 /-- the `<itemset>` child of a select (`MultipleChoiceQuestion.build_xml`) -/
 def itemsetNodes (r : Cells) : List Node :=
@@ -400,22 +588,63 @@ def itemsetNodes (r : Cells) : List Node :=
         [Asm.pyNode (l!"value") [(l!"ref", o.value)] [], Asm.pyNode (l!"label") [(l!"ref", o.label)] []]]
 
 mutual
+/-- `RepeatingSection._dynamic_defaults_helper`: setvalues of a repeat's descendants that are not inside a nested repeat -/
+def dynSets (els : List Refs.Chain) (pre : List Str) : DItem → List Node
+  | .q d p => dynSetOf els (ctxOf els (pre ++ [d.name])) p.cells true
+  | .sec .rep _ _ _ _ => []
+  | .sec _ n _ _ ks => dynSetsL els (pre ++ [n]) ks
+def dynSetsL (els : List Refs.Chain) (pre : List Str) : List DItem → List Node
+  | [] => []
+  | k :: ks => dynSets els pre k ++ dynSetsL els pre ks
+end
+
+/-- control attributes of a repeat through `insert_xpaths(value, self)` (`jr:count`) -/
+def subAttrs (els : List Refs.Chain) (ctx : Refs.Chain) (a : Controls.Dict) : Controls.Dict :=
+  a.map fun kv => (kv.1, (Refs.insertXpaths els (some ctx) {} kv.2).getD kv.2)
+
+def attrsErr (els : List Refs.Chain) (ctx : Refs.Chain) : Controls.Dict → Option Err
+  | [] => none
+  | (_, v) :: rest => orErr (exprErr els ctx v) (attrsErr els ctx rest)
+
+mutual
 /-- `xml_control` of an element, document order -/
-def bodyNodes (pre : List Str) : DItem → List Node
+def bodyNodes (els : List Refs.Chain) (pre : List Str) : DItem → List Node
   | .q d p =>
     if d.control then
-      [Asm.pyNode d.tag ((l!"ref", xpathStr (pre ++ [d.name])) :: p.attrs) (labelAndHint p.cells ++ itemsetNodes p.cells)]
+      [Asm.pyNode d.tag ((l!"ref", xpathStr (pre ++ [d.name])) :: p.attrs)
+        (labelAndHint els (pre ++ [d.name]) p.cells ++ itemsetNodes p.cells)]
     else []
   | .sec .rep n _ p ks =>
     [Asm.pyNode (l!"group") [(l!"ref", xpathStr (pre ++ [n]))]
-      [labelNode p.cells,
-       Asm.pyNode (l!"repeat") ((l!"nodeset", xpathStr (pre ++ [n])) :: p.attrs) (bodyNodesL (pre ++ [n]) ks)]]
+      [labelNode els (pre ++ [n]) p.cells,
+       Asm.pyNode (l!"repeat") ((l!"nodeset", xpathStr (pre ++ [n])) :: subAttrs els (ctxOf els (pre ++ [n])) p.attrs)
+         (bodyNodesL els (pre ++ [n]) ks ++ dynSetsL els (pre ++ [n]) ks)]]
   | .sec _ n _ p ks =>
     [Asm.pyNode (l!"group") (p.attrs ++ [(l!"ref", xpathStr (pre ++ [n]))])
-      ((if has p.cells "label" then [labelNode p.cells] else []) ++ bodyNodesL (pre ++ [n]) ks)]
-def bodyNodesL (pre : List Str) : List DItem → List Node
+      ((if has p.cells "label" then [labelNode els (pre ++ [n]) p.cells] else []) ++ bodyNodesL els (pre ++ [n]) ks)]
+def bodyNodesL (els : List Refs.Chain) (pre : List Str) : List DItem → List Node
   | [] => []
-  | k :: ks => bodyNodes pre k ++ bodyNodesL pre ks
+  | k :: ks => bodyNodes els pre k ++ bodyNodesL els pre ks
+end
+
+mutual
+/-- the first problem with a rendered label / hint / dynamic default / repeat count, document order -/
+def textsErr (els : List Refs.Chain) (pre : List Str) : DItem → Option Err
+  | .q d p =>
+    orErr
+      (if d.control then
+        orErr (textErr els (pre ++ [d.name]) (l!"label") (get p.cells "label"))
+              (textErr els (pre ++ [d.name]) (l!"hint") (get p.cells "hint"))
+       else none)
+      (match get p.cells "default" with
+       | some dv => if isDynDefault p.cells then exprErr els (ctxOf els (pre ++ [d.name])) dv else none
+       | none => none)
+  | .sec ct n _ p ks =>
+    orErr (textErr els (pre ++ [n]) (l!"label") (get p.cells "label"))
+      (orErr (if ct = .rep then attrsErr els (ctxOf els (pre ++ [n])) p.attrs else none) (textsErrL els (pre ++ [n]) ks))
+def textsErrL (els : List Refs.Chain) (pre : List Str) : List DItem → Option Err
+  | [] => none
+  | k :: ks => orErr (textsErr els pre k) (textsErrL els pre ks)
 end
 
 /-- element names of body controls (`control.tag` of the type table for the question types that render one) -/
@@ -475,6 +704,15 @@ def fieldsOf (wb : Workbook) : Except Err Asm.Fields :=
       let sv := Settings.surveyOf (Settings.jsonRoot st {})
       .ok { name := sv.name, title := sv.title, idString := sv.idString, version := sv.version }
 
+/-- or_other selects append the choice `other` to their (shared) list (xls2json.py 1036-1078) -/
+def othersApplied : List Cells → List (Str × List Choices.Choice) → List (Str × List Choices.Choice)
+  | [], lists => lists
+  | r :: rs, lists =>
+    othersApplied rs
+      (match get r "type" with
+       | some t => (match matchSelect t with | some (_, ln, true) => Choices.addOther ln lists | _ => lists)
+       | none => lists)
+
 /-! ## 9. the whole conversion -/
 
 /-- the DOM tree `Survey.xml()` returns -/
@@ -501,7 +739,7 @@ def convertDoc (wb : Workbook) : Except Err Node :=
   | .error (.unsupported w) => .error (.unsupported w)
   | .ok key =>
   match canonRows key wb.survey with
-  | .error w => .error (.unsupported w)
+  | .error e => .error e
   | .ok rows =>
   -- per-row classification and decoration
   match decorateAll listNames 2 rows with
@@ -520,17 +758,20 @@ def convertDoc (wb : Workbook) : Except Err Node :=
   | .error _ => .error (.unsupported "decorated tree (unreachable)")
   | .ok ditems =>
   let dall := dWithMeta root rows ditems
-  let names := (dNamesL dall).map lowerAscii
-  if !(decide names.Nodup) || names.contains (lowerAscii root) then .error (.unsupported "names not unique") else
   if metaKids rows [] ≠ [({ name := l!"instanceID", bind := true, control := false, node := true } : QData)] then
     .error (.unsupported "meta block") else
-  let tops := topNames ditems
-  if !bindsOkL root tops [root] dall then .error (.unsupported "reference or bind value outside the fragment") else
+  let els := elsOf root dall
+  let rc : Refs.Chain := [(root, .group)]
+  if !bindsSupL rc dall then .error (.unsupported "bind value outside the fragment") else
+  if !bindsOkL els rc dall then .error (.rejected "reference") else
   if !ctlOkL ditems then .error (.unsupported "control attribute with the local name ref / nodeset") else
+  match textsErrL els [root] ditems with
+  | some e => .error e
+  | none =>
   let rootKids := instNodes (defaultsOfL [root] ditems) [root] (ntKids o.inst)
-  let insts := (Choices.staticInsts [] lists).map Choices.instNode
-  let binds := bindNodesL root tops [root] dall
-  let body := bodyNodesL [root] ditems
+  let insts := (Choices.staticInsts [] (othersApplied rows lists)).map Choices.instNode
+  let binds := bindNodesL els rc dall
+  let body := bodyNodesL els [root] ditems
   let doc := Asm.assemble f none rootKids (insts ++ binds) body
   if Asm.validDoc [] doc then .ok doc else .error (.rejected "validate_xml_document")
 
